@@ -48,6 +48,15 @@ structure BPInv (pts : List (BrakingPoint α)) : Prop where
   mono : pts.Pairwise (fun a b => b.off ≤ a.off)
   bounds : ∀ p ∈ pts, 0 ≤ p.target ∧ p.target ≤ p.limit
 
+/-- The part of `BPInv` that `BrakingPoints::recalc` really establishes (`C03_recalc_inv`; the
+    ordering of the offsets is NOT established: `C03_recalc_offsets_not_monotone`).  It is all that
+    the safety facts about `calc_speeds` need. -/
+structure BPInvW (pts : List (BrakingPoint α)) : Prop where
+  ne : pts ≠ []
+  bounds : ∀ p ∈ pts, 0 ≤ p.target ∧ p.target ≤ p.limit
+
+theorem BPInv.weak {pts : List (BrakingPoint α)} (h : BPInv pts) : BPInvW pts := ⟨h.ne, h.bounds⟩
+
 /-- `i` is the bracket of `x`: `points[i].off ≤ x < points[i-1].off` (or `i = 0`). -/
 def Bracket (pts : List (BrakingPoint α)) (x : α) (i : Nat) : Prop :=
   ∃ p, pts[i]? = some p ∧ p.off ≤ x ∧ (i = 0 ∨ ∃ q, pts[i - 1]? = some q ∧ x < q.off)
@@ -76,27 +85,16 @@ theorem bracket_least {pts : List (BrakingPoint α)} (hm : pts.Pairwise (fun a b
 theorem get_mem {pts : List (BrakingPoint α)} {i : Nat} {p : BrakingPoint α} (h : pts[i]? = some p) :
     p ∈ pts := List.mem_of_getElem? h
 
-/-- **`calc_speeds`, full specification.**  On a list satisfying `BPInv`, with `idx_curr` a valid
-    index AT OR ABOVE the bracket of the train's offset (`points[idx_curr].off ≤ offset`; FORCED:
-    `C03_calcSpeeds_pre_counterexample`), the call
-    * lands `idx_curr` on the bracket `i` of `offset` (and `i ≤` the old `idx_curr`),
-    * returns `limit = points[i].limit` and `target =` the look-ahead minimum `LookMin`,
-      with `0 ≤ target ≤ limit`,
-    * or panics with the overspeed assertion, exactly when `points[i].limit < speed`.
-    No `index` / `fuel` / `underflow` panic and no `err` is possible. -/
-def C03_calcSpeeds_spec_statement : Prop :=
-  ∀ (bp : BrakingPoints α) (offset speed adj : α) (pc : BrakingPoint α),
-    BPInv bp.points →
-    bp.points[bp.idxCurr]? = some pc →   -- `idx_curr` is a valid index
-    pc.off ≤ offset →                    -- FORCED: `idx_curr` is not below the bracket
+/-- core of the `calc_speeds` specification: everything except the look-ahead characterisation
+    holds WITHOUT any ordering of the offsets -/
+theorem calcSpeeds_core (bp : BrakingPoints α) (offset speed adj : α) (pc : BrakingPoint α)
+    (hinv : BPInvW bp.points) (hpc : bp.points[bp.idxCurr]? = some pc) (hoff : pc.off ≤ offset) :
     ∃ i cur, i ≤ bp.idxCurr ∧ bp.points[i]? = some cur ∧ Bracket bp.points offset i ∧
       ((speed ≤ cur.limit ∧
         ∃ t, calcSpeeds bp offset speed adj = .ok ({ bp with idxCurr := i }, cur.limit, t) ∧
-          LookMin bp.points i (offset + speed * adj) t ∧ 0 ≤ t ∧ t ≤ cur.limit) ∨
-       (cur.limit < speed ∧ calcSpeeds bp offset speed adj = .panic "speed-limit-violated"))
-
-theorem C03_calcSpeeds_spec : C03_calcSpeeds_spec_statement (α := α) := by
-  intro bp offset speed adj pc hinv hpc hoff
+          (bp.points.Pairwise (fun a b => b.off ≤ a.off) →
+            LookMin bp.points i (offset + speed * adj) t) ∧ 0 ≤ t ∧ t ≤ cur.limit) ∨
+       (cur.limit < speed ∧ calcSpeeds bp offset speed adj = .panic "speed-limit-violated")) := by
   obtain ⟨p0, hp0⟩ : ∃ p0, bp.points[0]? = some p0 := by
     cases hpts : bp.points with
     | nil => exact absurd hpts hinv.ne
@@ -140,7 +138,7 @@ theorem C03_calcSpeeds_spec : C03_calcSpeeds_spec_statement (α := α) := by
       bpLookAhead_spec bp.points (offset + speed * adj) (bp.points.length + 1) i cur.target
         (by omega) (by omega)
     have hb := hinv.bounds cur (get_mem hcur)
-    refine ⟨t, ?_, ⟨?_, ?_⟩, ?_, le_trans htle hb.2⟩
+    refine ⟨t, ?_, fun hmono => ⟨?_, ?_⟩, ?_, le_trans htle hb.2⟩
     · simp only [hs, decide_true, Bool.not_true, Bool.false_eq_true, if_false, hk, bind, Res.bind, pure]
     · rcases hwit with hw | ⟨j, q, h1, h2, h3, h4⟩
       · exact ⟨i, cur, le_refl _, hcur, Or.inl rfl, hw⟩
@@ -157,7 +155,7 @@ theorem C03_calcSpeeds_spec : C03_calcSpeeds_spec_statement (α := α) := by
           by_contra hcon
           rcases hstop with h0 | ⟨r, hr, hrfar⟩
           · omega
-          · have := mono_get hinv.mono hq hr (by omega)
+          · have := mono_get hmono hq hr (by omega)
             exact absurd (lt_of_lt_of_le hrfar this) (not_lt.mpr hqfar)
         obtain ⟨q', hq', _, hle⟩ := hall j hkj hlt
         rw [hq] at hq'; cases hq'; exact hle
@@ -169,21 +167,70 @@ theorem C03_calcSpeeds_spec : C03_calcSpeeds_spec_statement (α := α) := by
     refine ⟨not_le.mp hs, ?_⟩
     simp only [hs, decide_false, Bool.not_false, if_true]
 
+/-- **`calc_speeds`, full specification.**  On a list satisfying `BPInv`, with `idx_curr` a valid
+    index AT OR ABOVE the bracket of the train's offset (`points[idx_curr].off ≤ offset`; FORCED:
+    `C03_calcSpeeds_pre_counterexample`), the call
+    * lands `idx_curr` on the bracket `i` of `offset` (and `i ≤` the old `idx_curr`),
+    * returns `limit = points[i].limit` and `target =` the look-ahead minimum `LookMin`,
+      with `0 ≤ target ≤ limit`,
+    * or panics with the overspeed assertion, exactly when `points[i].limit < speed`.
+    No `index` / `fuel` / `underflow` panic and no `err` is possible. -/
+def C03_calcSpeeds_spec_statement : Prop :=
+  ∀ (bp : BrakingPoints α) (offset speed adj : α) (pc : BrakingPoint α),
+    BPInv bp.points →
+    bp.points[bp.idxCurr]? = some pc →   -- `idx_curr` is a valid index
+    pc.off ≤ offset →                    -- FORCED: `idx_curr` is not below the bracket
+    ∃ i cur, i ≤ bp.idxCurr ∧ bp.points[i]? = some cur ∧ Bracket bp.points offset i ∧
+      ((speed ≤ cur.limit ∧
+        ∃ t, calcSpeeds bp offset speed adj = .ok ({ bp with idxCurr := i }, cur.limit, t) ∧
+          LookMin bp.points i (offset + speed * adj) t ∧ 0 ≤ t ∧ t ≤ cur.limit) ∨
+       (cur.limit < speed ∧ calcSpeeds bp offset speed adj = .panic "speed-limit-violated"))
+
+theorem C03_calcSpeeds_spec : C03_calcSpeeds_spec_statement (α := α) := by
+  intro bp offset speed adj pc hinv hpc hoff
+  obtain ⟨i, cur, h1, h2, h3, hcase⟩ := calcSpeeds_core bp offset speed adj pc hinv.weak hpc hoff
+  refine ⟨i, cur, h1, h2, h3, ?_⟩
+  rcases hcase with ⟨hs, t, ht, hmin, h0, hle⟩ | hp
+  · exact Or.inl ⟨hs, t, ht, hmin hinv.mono, h0, hle⟩
+  · exact Or.inr hp
+
+/-- **`calc_speeds` is safe on whatever `recalc` produces**: the same specification minus the
+    look-ahead characterisation, from `BPInvW` alone (no ordering of the offsets). -/
+def C03_calcSpeeds_safe_statement : Prop :=
+  ∀ (bp : BrakingPoints α) (offset speed adj : α) (pc : BrakingPoint α),
+    BPInvW bp.points →
+    bp.points[bp.idxCurr]? = some pc →
+    pc.off ≤ offset →                    -- FORCED
+    ∃ i cur, i ≤ bp.idxCurr ∧ bp.points[i]? = some cur ∧ Bracket bp.points offset i ∧
+      ((speed ≤ cur.limit ∧
+        ∃ t, calcSpeeds bp offset speed adj = .ok ({ bp with idxCurr := i }, cur.limit, t) ∧
+          0 ≤ t ∧ t ≤ cur.limit) ∨
+       (cur.limit < speed ∧ calcSpeeds bp offset speed adj = .panic "speed-limit-violated"))
+
+theorem C03_calcSpeeds_safe : C03_calcSpeeds_safe_statement (α := α) := by
+  intro bp offset speed adj pc hinv hpc hoff
+  obtain ⟨i, cur, h1, h2, h3, hcase⟩ := calcSpeeds_core bp offset speed adj pc hinv hpc hoff
+  refine ⟨i, cur, h1, h2, h3, ?_⟩
+  rcases hcase with ⟨hs, t, ht, _, h0, hle⟩ | hp
+  · exact Or.inl ⟨hs, t, ht, h0, hle⟩
+  · exact Or.inr hp
+
 
 /-- **`calc_speeds`, accepted call.**  The `= .ok` reading of `C03_calcSpeeds_spec`. -/
 def C03_calcSpeeds_ok_statement : Prop :=
   ∀ (bp bp' : BrakingPoints α) (offset speed adj limit target : α) (pc : BrakingPoint α),
-    BPInv bp.points →
+    BPInvW bp.points →
     bp.points[bp.idxCurr]? = some pc →
     pc.off ≤ offset →                    -- FORCED (as in `C03_calcSpeeds_spec`)
     calcSpeeds bp offset speed adj = .ok (bp', limit, target) →
       bp'.points = bp.points ∧ bp'.idxCurr ≤ bp.idxCurr ∧ Bracket bp.points offset bp'.idxCurr ∧
       (∃ cur, bp.points[bp'.idxCurr]? = some cur ∧ limit = cur.limit) ∧ speed ≤ limit ∧
-      LookMin bp.points bp'.idxCurr (offset + speed * adj) target ∧ 0 ≤ target ∧ target ≤ limit
+      (bp.points.Pairwise (fun a b => b.off ≤ a.off) →
+        LookMin bp.points bp'.idxCurr (offset + speed * adj) target) ∧ 0 ≤ target ∧ target ≤ limit
 
 theorem C03_calcSpeeds_ok : C03_calcSpeeds_ok_statement (α := α) := by
   intro bp bp' offset speed adj limit target pc hinv hpc hoff h
-  obtain ⟨i, cur, hile, hcur, hbr, hcase⟩ := C03_calcSpeeds_spec bp offset speed adj pc hinv hpc hoff
+  obtain ⟨i, cur, hile, hcur, hbr, hcase⟩ := calcSpeeds_core bp offset speed adj pc hinv hpc hoff
   rcases hcase with ⟨hs, t, ht, hmin, h0, hle⟩ | ⟨_, hp⟩
   · rw [ht] at h
     simp only [Res.ok.injEq, Prod.mk.injEq] at h
@@ -208,7 +255,7 @@ theorem C03_target_le_limit : C03_target_le_limit_statement (α := α) := by
 /-- **The only reachable failure of `calc_speeds` is the overspeed assertion.** -/
 def C03_calcSpeeds_only_overspeed_panic_statement : Prop :=
   ∀ (bp : BrakingPoints α) (offset speed adj : α) (pc : BrakingPoint α),
-    BPInv bp.points → bp.points[bp.idxCurr]? = some pc → pc.off ≤ offset →
+    BPInvW bp.points → bp.points[bp.idxCurr]? = some pc → pc.off ≤ offset →
       (∀ e, calcSpeeds bp offset speed adj ≠ .err e) ∧
       (∀ m, calcSpeeds bp offset speed adj = .panic m →
         m = "speed-limit-violated" ∧
@@ -217,7 +264,7 @@ def C03_calcSpeeds_only_overspeed_panic_statement : Prop :=
 theorem C03_calcSpeeds_only_overspeed_panic :
     C03_calcSpeeds_only_overspeed_panic_statement (α := α) := by
   intro bp offset speed adj pc hinv hpc hoff
-  obtain ⟨i, cur, _, hcur, hbr, hcase⟩ := C03_calcSpeeds_spec bp offset speed adj pc hinv hpc hoff
+  obtain ⟨i, cur, _, hcur, hbr, hcase⟩ := C03_calcSpeeds_safe bp offset speed adj pc hinv hpc hoff
   rcases hcase with ⟨_, t, ht, _⟩ | ⟨hlt, hp⟩
   · rw [ht]; exact ⟨fun e h => (by cases h), fun m h => (by cases h)⟩
   · rw [hp]
@@ -230,10 +277,10 @@ theorem C03_calcSpeeds_only_overspeed_panic :
     bracket. -/
 def C03_calcSpeeds_pre_preserved_statement : Prop :=
   ∀ (bp bp' : BrakingPoints α) (offset offset' speed adj limit target : α) (pc : BrakingPoint α),
-    BPInv bp.points → bp.points[bp.idxCurr]? = some pc → pc.off ≤ offset →
+    BPInvW bp.points → bp.points[bp.idxCurr]? = some pc → pc.off ≤ offset →
     calcSpeeds bp offset speed adj = .ok (bp', limit, target) →
     offset ≤ offset' →   -- FORCED: the train does not move backwards
-      BPInv bp'.points ∧ bp'.idxCurr ≤ bp.idxCurr ∧
+      BPInvW bp'.points ∧ bp'.idxCurr ≤ bp.idxCurr ∧
       ∃ pc', bp'.points[bp'.idxCurr]? = some pc' ∧ pc'.off ≤ offset'
 
 theorem C03_calcSpeeds_pre_preserved : C03_calcSpeeds_pre_preserved_statement (α := α) := by
@@ -456,5 +503,563 @@ theorem C03_overshoot_when_brakes_saturate :
   have : 0 < tpm s * (fApplied c sqrt fm cs fb s target - fTarget s target) :=
     mul_pos htp (by linarith)
   linarith
+
+/-! ### `ℚ` fixtures for §2–§6
+
+  A 1000 kg "train" (950 static + 50 rotational), `dt = 1 s`, rolling resistance 100 N, posted limit
+  20 m/s from offset 0, end of path at 10000; friction brake 2000 N ramping up in 10 s
+  (`ramp_up_coeff = 1/2`), currently released.  `sqrtQ` is the EXACT square root at the three
+  arguments it is called with (`(43/2)² = 1849/4`, `(41/2)² = 1681/4`, `(3/5)² = 9/25`). -/
+namespace Ex
+
+def cQ : TrConsts ℚ := ⟨1/2, 2, 4, 44704/1000000, 1/100000000, 1/10000000⟩
+def sqrtQ : ℚ → ℚ := fun x =>
+  if x = 1849/4 then 43/2 else if x = 1681/4 then 41/2 else if x = 9/25 then 3/5 else 0
+/-- consist state with `pwr_out_max`, `pwr_rate_out_max`, `pwr_dyn_brake_max` -/
+def csOf (pMax rate dyn : ℚ) : ConsistState ℚ := ⟨pMax, rate, 0, 0, 0, 0, 0, dyn, 0, 0, 0, 0, 0, 0, 0, 0, 0⟩
+/-- resistance state at `offset`, `speed`, with grade resistance `resGrade` (rolling 100 N) -/
+def resOf (offset speed resGrade : ℚ) : ResState ℚ :=
+  ⟨offset, offset - 100, speed, 100, 950, 9500, 100, 0, 0, 0, resGrade, 0, 0, 0, 0⟩
+def kinQ : Kin ℚ := ⟨0, 0, 0, 0, 20, 20, 1, 50, 0, 0, 0, 0, 0, 0, 0⟩
+def fbQ : FricBrake ℚ := ⟨2000, 10, 1/2, 0, 0⟩
+def bpQ : BrakingPoints ℚ := ⟨[⟨10000, 0, 0⟩, ⟨0, 20, 20⟩], 1⟩
+/-- AT the limit (20 m/s) on a downgrade: net resistance −500 N -/
+def sO : TrainState ℚ := ⟨resOf 1000 20 (-600), kinQ⟩
+def csO : ConsistState ℚ := csOf 10500 20000 2100
+/-- 19 m/s on the same downgrade -/
+def sA : TrainState ℚ := ⟨resOf 1000 19 (-600), kinQ⟩
+def csA : ConsistState ℚ := csOf 10000 20000 2100
+/-- 0.1 m/s (above the 0.1 mph guard) on an upgrade: net resistance +500 N; power ramp at 50 W -/
+def sN : TrainState ℚ := ⟨resOf 1000 (1/10) 400, kinQ⟩
+def csN : ConsistState ℚ := csOf 10500 50 2100
+
+/-- what an accepted step returns -/
+abbrev Out := FricBrake ℚ × BrakingPoints ℚ × TrainState ℚ
+
+theorem bpQ_inv : BPInv bpQ.points :=
+  ⟨by simp [bpQ], by unfold bpQ; decide +kernel, by unfold bpQ; decide +kernel⟩
+
+end Ex
+
+/-- non-vacuity of `C03_step_tracks_target` (a): 19 m/s, target 20, `L = −305 ≤ fT = 500 ≤ fP = 500`:
+    accepted, new speed exactly 20 -/
+example : ∃ fb' bp' s', slRequiredPwr Ex.cQ Ex.sqrtQ 1000 Ex.csA Ex.fbQ Ex.bpQ Ex.sA = .ok (fb', bp', s') ∧
+    0 < massCompound Ex.sA ∧ 0 < Ex.sA.k.dt ∧
+    lowClip Ex.cQ Ex.sqrtQ 1000 Ex.csA Ex.fbQ Ex.sA ≤ fTarget Ex.sA 20 ∧
+    fTarget Ex.sA 20 ≤ fPosMax Ex.cQ Ex.sqrtQ 1000 Ex.csA Ex.sA 20 ∧
+    s'.k.speedTarget = 20 ∧ s'.r.speed = 20 := by
+  obtain ⟨x, h, hp⟩ := okAnd_exists (r := slRequiredPwr Ex.cQ Ex.sqrtQ 1000 Ex.csA Ex.fbQ Ex.bpQ Ex.sA)
+    (p := fun x : Ex.Out => decide (x.2.2.k.speedTarget = 20 ∧ x.2.2.r.speed = 20)) (by decide +kernel)
+  obtain ⟨fb', bp', s'⟩ := x
+  have := of_decide_eq_true hp
+  exact ⟨fb', bp', s', h, by decide +kernel, by decide +kernel, by decide +kernel, by decide +kernel,
+    this.1, this.2⟩
+
+/-- non-vacuity of (b): 0.1 m/s on the upgrade with 450 N of tractive force: `fP = 450 < fT = 20400`,
+    accepted, new speed `0.05 < 20` -/
+example : ∃ fb' bp' s', slRequiredPwr Ex.cQ Ex.sqrtQ 450 Ex.csN Ex.fbQ Ex.bpQ Ex.sN = .ok (fb', bp', s') ∧
+    0 < massCompound Ex.sN ∧ 0 < Ex.sN.k.dt ∧
+    fPosMax Ex.cQ Ex.sqrtQ 450 Ex.csN Ex.sN 20 < fTarget Ex.sN 20 ∧
+    s'.k.speedTarget = 20 ∧ s'.r.speed = 1/20 := by
+  obtain ⟨x, h, hp⟩ := okAnd_exists (r := slRequiredPwr Ex.cQ Ex.sqrtQ 450 Ex.csN Ex.fbQ Ex.bpQ Ex.sN)
+    (p := fun x : Ex.Out => decide (x.2.2.k.speedTarget = 20 ∧ x.2.2.r.speed = 1/20)) (by decide +kernel)
+  obtain ⟨fb', bp', s'⟩ := x
+  have := of_decide_eq_true hp
+  exact ⟨fb', bp', s', h, by decide +kernel, by decide +kernel, by decide +kernel, this.1, this.2⟩
+
+/-- Everything one may reasonably assume about the inputs of one step of a valid, accepted
+    simulation: exact literals, a square root that is exact where it is used, a braking-point list
+    with `BPInv` and the `idx_curr` precondition, positive mass and time step, a train moving
+    forwards, a friction brake within its range, non-negative consist limits. -/
+structure Sane (c : TrConsts α) (sqrt : α → α) (fm : α) (cs : ConsistState α) (fb : FricBrake α)
+    (bp : BrakingPoints α) (s : TrainState α) : Prop where
+  half : c.half = 1 / 2
+  two : c.two = 2
+  four : c.four = 4
+  eps : 0 < c.eps
+  eps7 : 0 < c.eps7
+  mph : 0 < c.mph01
+  sqrtArg : 0 ≤ (s.r.speed - resNet s.r * tpm s) * (s.r.speed - resNet s.r * tpm s) +
+    c.four * tpm s * pwrPosMax cs s
+  sqrtNonneg : 0 ≤ sqrt ((s.r.speed - resNet s.r * tpm s) * (s.r.speed - resNet s.r * tpm s) +
+    c.four * tpm s * pwrPosMax cs s)
+  sqrtExact :
+    sqrt ((s.r.speed - resNet s.r * tpm s) * (s.r.speed - resNet s.r * tpm s) +
+        c.four * tpm s * pwrPosMax cs s) *
+      sqrt ((s.r.speed - resNet s.r * tpm s) * (s.r.speed - resNet s.r * tpm s) +
+        c.four * tpm s * pwrPosMax cs s) =
+    (s.r.speed - resNet s.r * tpm s) * (s.r.speed - resNet s.r * tpm s) +
+      c.four * tpm s * pwrPosMax cs s
+  inv : BPInv bp.points
+  idx : ∃ pc, bp.points[bp.idxCurr]? = some pc ∧ pc.off ≤ s.r.offset
+  mass : 0 < massCompound s
+  dt : 0 < s.k.dt
+  speed : 0 ≤ s.r.speed
+  fricForce : 0 ≤ fb.force ∧ fb.force ≤ fb.forceMax
+  ramp : 0 < fb.rampUpTime ∧ 0 ≤ fb.rampUpCoeff
+  fmPos : 0 < fm
+  dyn : 0 ≤ cs.pwrDynBrakeMax
+  pwr : 0 ≤ cs.pwrOutMax ∧ 0 ≤ cs.pwrRateOutMax
+
+/-- **"Never overspeeds", one step (FALSE — `C03_never_overspeeds_counterexample`).**  From sane
+    inputs an accepted step ends at or below the limit it recorded, and the next `calc_speeds`
+    (whatever look-ahead time) does not hit the `Speed limit violated!` assertion. -/
+def C03_never_overspeeds_statement : Prop :=
+  ∀ (c : TrConsts α) (sqrt : α → α) (fm : α) (cs : ConsistState α) (fb fb' : FricBrake α)
+    (bp bp' : BrakingPoints α) (s s' : TrainState α),
+    Sane c sqrt fm cs fb bp s →
+    slRequiredPwr c sqrt fm cs fb bp s = .ok (fb', bp', s') →
+      s'.r.speed ≤ s'.k.speedLimit ∧
+      ∀ adj m, calcSpeeds bp' s'.r.offset s'.r.speed adj ≠ .panic m
+
+theorem Ex.sane_O : Sane Ex.cQ Ex.sqrtQ 1000 Ex.csO Ex.fbQ Ex.bpQ Ex.sO where
+  half := by decide +kernel
+  two := by decide +kernel
+  four := by decide +kernel
+  eps := by decide +kernel
+  eps7 := by decide +kernel
+  mph := by decide +kernel
+  sqrtArg := by decide +kernel
+  sqrtNonneg := by decide +kernel
+  sqrtExact := by decide +kernel
+  inv := Ex.bpQ_inv
+  idx := ⟨⟨0, 20, 20⟩, rfl, by decide +kernel⟩
+  mass := by decide +kernel
+  dt := by decide +kernel
+  speed := by decide +kernel
+  fricForce := by decide +kernel
+  ramp := by decide +kernel
+  fmPos := by decide +kernel
+  dyn := by decide +kernel
+  pwr := by decide +kernel
+
+/-- **Counterexample to "never overspeeds" (in the model, over `ℚ`).**  The train is AT the limit
+    (20 m/s, target 20) on a downgrade (net resistance −500 N).  Holding 20 needs −500 N; the friction
+    brake has only ramped to 200 N and dynamic braking gives 100 N, so the lower clip is −300 N
+    (`fT = −500 < L = −300 ≤ fP = 525`).  The step is ACCEPTED (every `ensure!` passes: brake request
+    200 ≤ 200, wheel power −2020 W within ±limits) and ends at **20.2 m/s > 20 = limit**; the next
+    `calc_speeds` then aborts with `Speed limit violated!`. -/
+theorem C03_never_overspeeds_counterexample_run :
+    ∃ fb' bp' s', slRequiredPwr Ex.cQ Ex.sqrtQ 1000 Ex.csO Ex.fbQ Ex.bpQ Ex.sO = .ok (fb', bp', s') ∧
+      Ex.sO.r.speed = 20 ∧ s'.k.speedLimit = 20 ∧ s'.k.speedTarget = 20 ∧ s'.r.speed = 101/5 ∧
+      s'.r.offset = 10201/10 ∧ fb'.force = 200 ∧ fb'.forceMaxCurr = 200 ∧ s'.k.pwrWhlOut = -2020 ∧
+      s'.k.speedLimit < s'.r.speed ∧
+      calcSpeeds bp' s'.r.offset s'.r.speed (fb'.rampUpTime * fb'.rampUpCoeff) =
+        .panic "speed-limit-violated" := by
+  obtain ⟨x, h, hp⟩ := okAnd_exists (r := slRequiredPwr Ex.cQ Ex.sqrtQ 1000 Ex.csO Ex.fbQ Ex.bpQ Ex.sO)
+    (p := fun x : Ex.Out => decide (x.2.2.k.speedLimit = 20 ∧ x.2.2.k.speedTarget = 20 ∧ x.2.2.r.speed = 101/5 ∧
+      x.2.2.r.offset = 10201/10 ∧ x.1.force = 200 ∧ x.1.forceMaxCurr = 200 ∧ x.2.2.k.pwrWhlOut = -2020 ∧
+      x.2.2.k.speedLimit < x.2.2.r.speed ∧
+      calcSpeeds x.2.1 x.2.2.r.offset x.2.2.r.speed (x.1.rampUpTime * x.1.rampUpCoeff) =
+        .panic "speed-limit-violated")) (by decide +kernel)
+  obtain ⟨fb', bp', s'⟩ := x
+  have := of_decide_eq_true hp
+  exact ⟨fb', bp', s', h, by decide +kernel, this⟩
+
+theorem C03_never_overspeeds_counterexample : ¬ C03_never_overspeeds_statement (α := ℚ) := by
+  intro hall
+  obtain ⟨fb', bp', s', h, _, _, _, _, _, _, _, _, hlt, _⟩ := C03_never_overspeeds_counterexample_run
+  exact absurd (hall _ _ _ _ _ _ _ _ _ _ Ex.sane_O h).1 (not_le.mpr hlt)
+
+/-- the counterexample instantiates every hypothesis of `C03_overshoot_when_brakes_saturate` -/
+example : ∃ fb' bp' s', slRequiredPwr Ex.cQ Ex.sqrtQ 1000 Ex.csO Ex.fbQ Ex.bpQ Ex.sO = .ok (fb', bp', s') ∧
+    0 < massCompound Ex.sO ∧ 0 < Ex.sO.k.dt ∧ s'.k.speedTarget = 20 ∧
+    (20 : ℚ) < Ex.sO.r.speed - Ex.sO.k.dt / massCompound Ex.sO *
+      (fmcNew Ex.fbQ Ex.sO + fRegenDyn Ex.cQ Ex.sqrtQ 1000 Ex.csO Ex.sO + resNet Ex.sO.r) ∧
+    fTarget Ex.sO 20 < fPosMax Ex.cQ Ex.sqrtQ 1000 Ex.csO Ex.sO 20 ∧
+    almostEq (speed0 Ex.cQ Ex.sqrtQ 1000 Ex.csO Ex.fbQ Ex.sO 20) 20 Ex.cQ.eps = false := by
+  obtain ⟨fb', bp', s', h, _, _, ht, _⟩ := C03_never_overspeeds_counterexample_run
+  exact ⟨fb', bp', s', h, by decide +kernel, by decide +kernel, ht, by decide +kernel,
+    by decide +kernel, by decide +kernel⟩
+
+/-! ## §3  Non-negativity of the speed -/
+
+/-- **`nonneg_partial`.**  An accepted step with a non-negative target ends with a non-negative
+    speed PROVIDED that, whenever the upper clip is the active one (`fP < max fT L`, i.e. the train
+    gets all the tractive force there is), the deficit `res − fP` cannot eat the whole speed within
+    one step: `(res − fP)·dt/m ≤ v`.  This hypothesis is FORCED (`C03_nonneg_forced`,
+    `C03_nonneg_counterexample`).  The code's own guard ("insufficient power to move") fires only
+    when `v < 0.1 mph ∧ fP ≤ res`. -/
+def C03_nonneg_partial_statement : Prop :=
+  ∀ (c : TrConsts α) (sqrt : α → α) (fm : α) (cs : ConsistState α) (fb fb' : FricBrake α)
+    (bp bp' : BrakingPoints α) (s s' : TrainState α),
+    slRequiredPwr c sqrt fm cs fb bp s = .ok (fb', bp', s') →
+    0 < massCompound s → 0 < s.k.dt →
+    0 ≤ s'.k.speedTarget →   -- FORCED; follows from `BPInv` by `C03_calcSpeeds_ok`
+    (fPosMax c sqrt fm cs s s'.k.speedTarget <
+        max (fTarget s s'.k.speedTarget) (lowClip c sqrt fm cs fb s) →
+      (resNet s.r - fPosMax c sqrt fm cs s s'.k.speedTarget) * s.k.dt / massCompound s ≤ s.r.speed) →  -- FORCED
+      0 ≤ s'.r.speed
+
+theorem C03_nonneg_partial : C03_nonneg_partial_statement (α := α) := by
+  intro c sqrt fm cs fb fb' bp bp' s s' h hm hdt ht hdef
+  obtain ⟨limit, target, fC, hcs, _, _, _, _, _, _, rfl⟩ := slRequiredPwr_inv h
+  change 0 ≤ target at ht
+  change fPosMax c sqrt fm cs s target < max (fTarget s target) (lowClip c sqrt fm cs fb s) →
+    (resNet s.r - fPosMax c sqrt fm cs s target) * s.k.dt / massCompound s ≤ s.r.speed at hdef
+  show 0 ≤ speedNew c sqrt fm cs fb s target
+  have hsub := speed0_sub_target c sqrt fm cs fb s target hm hdt
+  have htp := tpm_pos s hm hdt
+  have hfa := fApplied_eq c sqrt fm cs fb s target
+  rcases speedNew_cases c sqrt fm cs fb s target with h1 | ⟨h1, _⟩
+  · rw [h1]; exact ht
+  · rw [h1]
+    rcases lt_or_ge (fPosMax c sqrt fm cs s target)
+        (max (fTarget s target) (lowClip c sqrt fm cs fb s)) with hc | hc
+    · have hv := hdef hc
+      have hA : fApplied c sqrt fm cs fb s target = fPosMax c sqrt fm cs s target := by
+        rw [hfa]; exact min_eq_left (le_of_lt hc)
+      have hs0 : speed0 c sqrt fm cs fb s target =
+          s.r.speed - (resNet s.r - fPosMax c sqrt fm cs s target) * s.k.dt / massCompound s := by
+        show s.r.speed + tpm s * (fApplied c sqrt fm cs fb s target - resNet s.r) = _
+        rw [hA]; unfold tpm; ring
+      rw [hs0]; linarith
+    · have hA : fApplied c sqrt fm cs fb s target =
+          max (fTarget s target) (lowClip c sqrt fm cs fb s) := by
+        rw [hfa]; exact min_eq_right hc
+      have : 0 ≤ tpm s * (fApplied c sqrt fm cs fb s target - fTarget s target) :=
+        mul_nonneg (le_of_lt htp) (by rw [hA]; linarith [le_max_left (fTarget s target) (lowClip c sqrt fm cs fb s)])
+      linarith
+
+/-- the sufficient condition of DESIGN.md: the train already moves forwards and the available
+    tractive force covers the resistance -/
+theorem C03_nonneg_of_force_covers_res
+    (c : TrConsts α) (sqrt : α → α) (fm : α) (cs : ConsistState α) (fb fb' : FricBrake α)
+    (bp bp' : BrakingPoints α) (s s' : TrainState α)
+    (h : slRequiredPwr c sqrt fm cs fb bp s = .ok (fb', bp', s'))
+    (hm : 0 < massCompound s) (hdt : 0 < s.k.dt) (ht : 0 ≤ s'.k.speedTarget)
+    (hv : 0 ≤ s.r.speed) (hres : resNet s.r ≤ fPosMax c sqrt fm cs s s'.k.speedTarget) :
+    0 ≤ s'.r.speed := by
+  refine C03_nonneg_partial c sqrt fm cs fb fb' bp bp' s s' h hm hdt ht (fun _ => ?_)
+  have : (resNet s.r - fPosMax c sqrt fm cs s s'.k.speedTarget) * s.k.dt / massCompound s ≤ 0 :=
+    div_nonpos_of_nonpos_of_nonneg (mul_nonpos_of_nonpos_of_nonneg (by linarith) (le_of_lt hdt))
+      (le_of_lt hm)
+  linarith
+
+/-- **the hypothesis of `nonneg_partial` is FORCED**: when the upper clip is active, the deficit
+    exceeds the speed and the result is not snapped to the target, the new speed IS negative -/
+def C03_nonneg_forced_statement : Prop :=
+  ∀ (c : TrConsts α) (sqrt : α → α) (fm : α) (cs : ConsistState α) (fb fb' : FricBrake α)
+    (bp bp' : BrakingPoints α) (s s' : TrainState α),
+    slRequiredPwr c sqrt fm cs fb bp s = .ok (fb', bp', s') →
+    fPosMax c sqrt fm cs s s'.k.speedTarget <
+      max (fTarget s s'.k.speedTarget) (lowClip c sqrt fm cs fb s) →
+    s.r.speed < (resNet s.r - fPosMax c sqrt fm cs s s'.k.speedTarget) * s.k.dt / massCompound s →
+    almostEq (speed0 c sqrt fm cs fb s s'.k.speedTarget) s'.k.speedTarget c.eps = false →
+      s'.r.speed < 0
+
+theorem C03_nonneg_forced : C03_nonneg_forced_statement (α := α) := by
+  intro c sqrt fm cs fb fb' bp bp' s s' h hc hv hns
+  obtain ⟨limit, target, fC, hcs, _, _, _, _, _, _, rfl⟩ := slRequiredPwr_inv h
+  change fPosMax c sqrt fm cs s target < max (fTarget s target) (lowClip c sqrt fm cs fb s) at hc
+  change s.r.speed < (resNet s.r - fPosMax c sqrt fm cs s target) * s.k.dt / massCompound s at hv
+  change almostEq (speed0 c sqrt fm cs fb s target) target c.eps = false at hns
+  show speedNew c sqrt fm cs fb s target < 0
+  have hnew : speedNew c sqrt fm cs fb s target = speed0 c sqrt fm cs fb s target := by
+    unfold speedNew; rw [hns]; simp
+  have hA : fApplied c sqrt fm cs fb s target = fPosMax c sqrt fm cs s target := by
+    rw [fApplied_eq]; exact min_eq_left (le_of_lt hc)
+  have hs0 : speed0 c sqrt fm cs fb s target =
+      s.r.speed - (resNet s.r - fPosMax c sqrt fm cs s target) * s.k.dt / massCompound s := by
+    show s.r.speed + tpm s * (fApplied c sqrt fm cs fb s target - resNet s.r) = _
+    rw [hA]; unfold tpm; ring
+  rw [hnew, hs0]; linarith
+
+/-- **"Never reverses", one step (FALSE — `C03_nonneg_counterexample`).** -/
+def C03_never_reverses_statement : Prop :=
+  ∀ (c : TrConsts α) (sqrt : α → α) (fm : α) (cs : ConsistState α) (fb fb' : FricBrake α)
+    (bp bp' : BrakingPoints α) (s s' : TrainState α),
+    Sane c sqrt fm cs fb bp s →
+    slRequiredPwr c sqrt fm cs fb bp s = .ok (fb', bp', s') →
+      0 ≤ s'.r.speed
+
+theorem Ex.sane_N : Sane Ex.cQ Ex.sqrtQ 300 Ex.csN Ex.fbQ Ex.bpQ Ex.sN where
+  half := by decide +kernel
+  two := by decide +kernel
+  four := by decide +kernel
+  eps := by decide +kernel
+  eps7 := by decide +kernel
+  mph := by decide +kernel
+  sqrtArg := by decide +kernel
+  sqrtNonneg := by decide +kernel
+  sqrtExact := by decide +kernel
+  inv := Ex.bpQ_inv
+  idx := ⟨⟨0, 20, 20⟩, rfl, by decide +kernel⟩
+  mass := by decide +kernel
+  dt := by decide +kernel
+  speed := by decide +kernel
+  fricForce := by decide +kernel
+  ramp := by decide +kernel
+  fmPos := by decide +kernel
+  dyn := by decide +kernel
+  pwr := by decide +kernel
+
+/-- **Counterexample to "never reverses" (in the model, over `ℚ`).**  The train crawls at 0.1 m/s
+    (ABOVE the 0.1 mph = 0.0447 m/s threshold of the "insufficient power to move" guard) up a grade
+    with net resistance 500 N; the consist can give at most 300 N (`fP = min 300 (50 W / 0.1 m/s)`).
+    The step is ACCEPTED — wheel power `300 N · (−0.1 m/s) = −30 W` passes both `ensure!`s as long as
+    the consist has ≥ 30 W of dynamic-brake rating — and the new speed is **−0.1 m/s**. -/
+theorem C03_nonneg_counterexample :
+    ∃ fb' bp' s', slRequiredPwr Ex.cQ Ex.sqrtQ 300 Ex.csN Ex.fbQ Ex.bpQ Ex.sN = .ok (fb', bp', s') ∧
+      Ex.sN.r.speed = 1/10 ∧ Ex.cQ.mph01 ≤ Ex.sN.r.speed ∧ s'.k.speedTarget = 20 ∧
+      fPosMax Ex.cQ Ex.sqrtQ 300 Ex.csN Ex.sN 20 = 300 ∧ resNet Ex.sN.r = 500 ∧
+      s'.r.speed = -1/10 ∧ s'.r.speed < 0 ∧ s'.k.pwrWhlOut = -30 := by
+  obtain ⟨x, h, hp⟩ := okAnd_exists (r := slRequiredPwr Ex.cQ Ex.sqrtQ 300 Ex.csN Ex.fbQ Ex.bpQ Ex.sN)
+    (p := fun x : Ex.Out => decide (x.2.2.k.speedTarget = 20 ∧ x.2.2.r.speed = -1/10 ∧ x.2.2.r.speed < 0 ∧
+      x.2.2.k.pwrWhlOut = -30)) (by decide +kernel)
+  obtain ⟨fb', bp', s'⟩ := x
+  obtain ⟨h1, h2, h3, h4⟩ := of_decide_eq_true hp
+  exact ⟨fb', bp', s', h, by decide +kernel, by decide +kernel, h1, by decide +kernel,
+    by decide +kernel, h2, h3, h4⟩
+
+theorem C03_never_reverses_counterexample : ¬ C03_never_reverses_statement (α := ℚ) := by
+  intro hall
+  obtain ⟨fb', bp', s', h, _, _, _, _, _, _, hlt, _⟩ := C03_nonneg_counterexample
+  exact absurd (hall _ _ _ _ _ _ _ _ _ _ Ex.sane_N h) (not_le.mpr hlt)
+
+/-- non-vacuity of `C03_nonneg_partial`: same crawl with 450 N available: deficit
+    `(500 − 450)·1/1000 = 0.05 ≤ 0.1 = v`, new speed `0.05 ≥ 0` -/
+example : ∃ fb' bp' s', slRequiredPwr Ex.cQ Ex.sqrtQ 450 Ex.csN Ex.fbQ Ex.bpQ Ex.sN = .ok (fb', bp', s') ∧
+    0 < massCompound Ex.sN ∧ 0 < Ex.sN.k.dt ∧ s'.k.speedTarget = 20 ∧
+    fPosMax Ex.cQ Ex.sqrtQ 450 Ex.csN Ex.sN 20 <
+      max (fTarget Ex.sN 20) (lowClip Ex.cQ Ex.sqrtQ 450 Ex.csN Ex.fbQ Ex.sN) ∧
+    (resNet Ex.sN.r - fPosMax Ex.cQ Ex.sqrtQ 450 Ex.csN Ex.sN 20) * Ex.sN.k.dt / massCompound Ex.sN
+      ≤ Ex.sN.r.speed ∧ s'.r.speed = 1/20 := by
+  obtain ⟨x, h, hp⟩ := okAnd_exists (r := slRequiredPwr Ex.cQ Ex.sqrtQ 450 Ex.csN Ex.fbQ Ex.bpQ Ex.sN)
+    (p := fun x : Ex.Out => decide (x.2.2.k.speedTarget = 20 ∧ x.2.2.r.speed = 1/20)) (by decide +kernel)
+  obtain ⟨fb', bp', s'⟩ := x
+  have := of_decide_eq_true hp
+  exact ⟨fb', bp', s', h, by decide +kernel, by decide +kernel, this.1, by decide +kernel,
+    by decide +kernel, this.2⟩
+
+/-! ## §4  Friction brake -/
+
+/-- **`set_cur_force_max_out`**: the new current maximum is the smaller of the static maximum and
+    the ramped value.  (`ramp_up_time ≠ 0` guards the division; with `ramp_up_time = 0` IEEE gives
+    `+∞.min(force_max)` while the field model gives `force + 0`.) -/
+def C03_fricSetCurMax_bounds_statement : Prop :=
+  ∀ (f : FricBrake α) (dt : α),
+    f.rampUpTime ≠ 0 →
+      (fricSetCurMax f dt).forceMaxCurr = min (f.force + f.forceMax / f.rampUpTime * dt) f.forceMax ∧
+      (fricSetCurMax f dt).forceMaxCurr ≤ f.forceMax ∧
+      (fricSetCurMax f dt).forceMaxCurr ≤ f.force + f.forceMax / f.rampUpTime * dt ∧
+      (fricSetCurMax f dt).forceMax = f.forceMax ∧ (fricSetCurMax f dt).force = f.force ∧
+      (fricSetCurMax f dt).rampUpTime = f.rampUpTime ∧ (fricSetCurMax f dt).rampUpCoeff = f.rampUpCoeff
+
+theorem C03_fricSetCurMax_bounds : C03_fricSetCurMax_bounds_statement (α := α) := by
+  intro f dt _
+  have : (fricSetCurMax f dt).forceMaxCurr = min (f.force + f.forceMax / f.rampUpTime * dt) f.forceMax := by
+    show mn _ _ = _; rw [mn_eq_min]
+  exact ⟨this, this ▸ min_le_right _ _, this ▸ min_le_left _ _, rfl, rfl, rfl, rfl⟩
+
+example : (fricSetCurMax Ex.fbQ 1).forceMaxCurr = 200 ∧ Ex.fbQ.rampUpTime ≠ 0 ∧
+    (fricSetCurMax (⟨2000, 10, 1/2, 1900, 0⟩ : FricBrake ℚ) 1).forceMaxCurr = 2000 := by
+  decide +kernel
+
+/-- **The friction brake after an accepted step.**  Parameters unchanged, `force_max_curr` as set by
+    `set_cur_force_max_out`, and the applied force is released (`0`), kept, or RAISED to
+    `−(f_applied + f_regen_dyn)` — in which case the `ensure!` has checked
+    `almost_le(force, force_max_curr)` (the third branch). -/
+def C03_fric_step_statement : Prop :=
+  ∀ (c : TrConsts α) (sqrt : α → α) (fm : α) (cs : ConsistState α) (fb fb' : FricBrake α)
+    (bp bp' : BrakingPoints α) (s s' : TrainState α),
+    slRequiredPwr c sqrt fm cs fb bp s = .ok (fb', bp', s') →
+      fb'.forceMax = fb.forceMax ∧ fb'.rampUpTime = fb.rampUpTime ∧ fb'.rampUpCoeff = fb.rampUpCoeff ∧
+      fb'.forceMaxCurr = min (fb.force + fb.forceMax / fb.rampUpTime * s.k.dt) fb.forceMax ∧
+      fb'.forceMaxCurr ≤ fb.forceMax ∧
+      (fb'.force = 0 ∨ fb'.force = fb.force ∨
+        (fb.force < fb'.force ∧
+          fb'.force = -(fApplied c sqrt fm cs fb s s'.k.speedTarget + fRegenDyn c sqrt fm cs s) ∧
+          almostLe fb'.force fb'.forceMaxCurr c.eps = true))
+
+theorem C03_fric_step : C03_fric_step_statement (α := α) := by
+  intro c sqrt fm cs fb fb' bp bp' s s' h
+  obtain ⟨limit, target, fC, _, _, _, _, hfr, _, _, rfl⟩ := slRequiredPwr_inv h
+  obtain ⟨h1, h2, h3, h4, hcase⟩ := fricOut_cases _ _ _ _ _ _ hfr
+  have hmin : (fricSetCurMax fb s.k.dt).forceMaxCurr =
+      min (fb.force + fb.forceMax / fb.rampUpTime * s.k.dt) fb.forceMax := by
+    show mn _ _ = _; rw [mn_eq_min]
+  refine ⟨h1, h2, h3, h4.trans hmin, ?_, ?_⟩
+  · rw [h4, hmin]; exact min_le_right _ _
+  · rcases hcase with ⟨_, hf, _⟩ | ⟨_, _, hf, _⟩ | ⟨_, _, _, hf, _⟩ | ⟨_, _, hlt, hf, _, hal⟩
+    · exact Or.inl hf
+    · exact Or.inr (Or.inl hf)
+    · exact Or.inr (Or.inl hf)
+    · refine Or.inr (Or.inr ⟨?_, hf, hal⟩)
+      rw [hf]
+      have : (fricSetCurMax fb s.k.dt).force = fb.force := rfl
+      rw [this] at hlt
+      linarith
+
+/-- **Inductive invariant of the brake force**: `0 ≤ force` and `almost_le(force, force_max)` are
+    preserved by every accepted step (`0 ≤ force_max`, `0 < eps` FORCED for the release branch). -/
+def C03_fric_inv_statement : Prop :=
+  ∀ (c : TrConsts α) (sqrt : α → α) (fm : α) (cs : ConsistState α) (fb fb' : FricBrake α)
+    (bp bp' : BrakingPoints α) (s s' : TrainState α),
+    slRequiredPwr c sqrt fm cs fb bp s = .ok (fb', bp', s') →
+    0 ≤ fb.forceMax → 0 < c.eps →
+    0 ≤ fb.force → almostLe fb.force fb.forceMax c.eps = true →
+      0 ≤ fb'.force ∧ almostLe fb'.force fb'.forceMax c.eps = true
+
+theorem C03_fric_inv : C03_fric_inv_statement (α := α) := by
+  intro c sqrt fm cs fb fb' bp bp' s s' h hmax heps h0 hal
+  obtain ⟨hfm, _, _, _, hle, hcase⟩ := C03_fric_step c sqrt fm cs fb fb' bp bp' s s' h
+  rw [hfm]
+  rcases hcase with hf | hf | ⟨hlt, _, hal'⟩
+  · rw [hf]
+    refine ⟨le_refl _, ?_⟩
+    unfold almostLe
+    simp only [Bool.or_eq_true, decide_eq_true_iff]
+    right; linarith
+  · rw [hf]; exact ⟨h0, hal⟩
+  · refine ⟨le_of_lt (lt_of_le_of_lt h0 hlt), ?_⟩
+    unfold almostLe at hal' ⊢
+    simp only [Bool.or_eq_true, decide_eq_true_iff] at hal' ⊢
+    rcases hal' with h1 | h1
+    · left
+      have : fb'.forceMaxCurr * (1 + c.eps) ≤ fb.forceMax * (1 + c.eps) :=
+        mul_le_mul_of_nonneg_right hle (by linarith)
+      linarith
+    · right; linarith
+
+/-- the overspeed run instantiates the RAISED branch: force 0 → 200 = force_max_curr -/
+example : ∃ fb' bp' s', slRequiredPwr Ex.cQ Ex.sqrtQ 1000 Ex.csO Ex.fbQ Ex.bpQ Ex.sO = .ok (fb', bp', s') ∧
+    0 ≤ Ex.fbQ.forceMax ∧ 0 < Ex.cQ.eps ∧ 0 ≤ Ex.fbQ.force ∧
+    almostLe Ex.fbQ.force Ex.fbQ.forceMax Ex.cQ.eps = true ∧ fb'.force = 200 := by
+  obtain ⟨fb', bp', s', h, _, _, _, _, _, hf, _⟩ := C03_never_overspeeds_counterexample_run
+  exact ⟨fb', bp', s', h, by decide +kernel, by decide +kernel, by decide +kernel, by decide +kernel, hf⟩
+
+/-! ## §5  The loop condition of `walk_internal` -/
+
+/-- **`walk_exit`**: the walk stops exactly when the train is inside the last 1000 ft AND (at/after
+    the end OR at rest).  NOTE what this does *not* say: `offset ≤ offset_end` — a train that is still
+    moving when it passes the end of its path also leaves the loop (`offset_end ≤ offset`), `Ok`. -/
+def C03_walk_exit_statement : Prop :=
+  ∀ (ft1000 offsetEnd : α) (s : TrainState α),
+    walkCond ft1000 offsetEnd s = false ↔
+      (offsetEnd - ft1000 ≤ s.r.offset) ∧ (offsetEnd ≤ s.r.offset ∨ s.r.speed = 0)
+
+theorem C03_walk_exit : C03_walk_exit_statement (α := α) := by
+  intro ft1000 offsetEnd s
+  unfold walkCond
+  rw [Bool.or_eq_false_iff, Bool.and_eq_false_iff, decide_eq_false_iff_not, decide_eq_false_iff_not,
+    not_lt, not_lt, ← Bool.not_eq_true, neb_iff, not_not]
+
+example : walkCond (1524/5 : ℚ) 10000 ⟨Ex.resOf 9900 0 0, Ex.kinQ⟩ = false ∧
+    walkCond (1524/5 : ℚ) 10000 ⟨Ex.resOf 9900 1 0, Ex.kinQ⟩ = true ∧
+    walkCond (1524/5 : ℚ) 10000 ⟨Ex.resOf 10001 5 0, Ex.kinQ⟩ = false := by
+  decide +kernel
+
+/-! ## §6  Power bounds of an accepted step -/
+
+/-- **Power bounds.**  The stored wheel power lies in `[−pwr_neg_max, pwr_pos_max]` (both limits
+    non-negative), it is the clamp of `f_consist · speed'`, and the two `ensure!`s have checked
+    `almost_le(f_consist·speed', pwr_pos_max, 1e-7)` and `almost_le(−f_consist·speed', pwr_neg_max, 1e-7)`. -/
+def C03_power_bounds_statement : Prop :=
+  ∀ (c : TrConsts α) (sqrt : α → α) (fm : α) (cs : ConsistState α) (fb fb' : FricBrake α)
+    (bp bp' : BrakingPoints α) (s s' : TrainState α),
+    slRequiredPwr c sqrt fm cs fb bp s = .ok (fb', bp', s') →
+      0 ≤ pwrPosMax cs s ∧ 0 ≤ pwrNegMax cs ∧
+      -pwrNegMax cs ≤ s'.k.pwrWhlOut ∧ s'.k.pwrWhlOut ≤ pwrPosMax cs s ∧
+      ∃ fConsist,
+        s'.k.pwrWhlOut = min (max (fConsist * s'.r.speed) (-pwrNegMax cs)) (pwrPosMax cs s) ∧
+        almostLe (fConsist * s'.r.speed) (pwrPosMax cs s) c.eps7 = true ∧
+        almostLe (-(fConsist * s'.r.speed)) (pwrNegMax cs) c.eps7 = true
+
+theorem C03_power_bounds : C03_power_bounds_statement (α := α) := by
+  intro c sqrt fm cs fb fb' bp bp' s s' h
+  obtain ⟨limit, target, fC, _, _, hpos, _, _, h1, h2, rfl⟩ := slRequiredPwr_inv h
+  have hneg : 0 ≤ pwrNegMax cs := by unfold pwrNegMax; rw [mx_eq_max]; exact le_max_right _ _
+  have hw : (mkState c sqrt fm cs fb s target limit
+      (whlOf cs s (fC * speedNew c sqrt fm cs fb s target))).k.pwrWhlOut =
+      min (max (fC * speedNew c sqrt fm cs fb s target) (-pwrNegMax cs)) (pwrPosMax cs s) := by
+    show whlOf cs s _ = _
+    unfold whlOf; rw [mn_eq_min, mx_eq_max]
+  refine ⟨hpos, hneg, ?_, ?_, fC, hw, h1, h2⟩
+  · rw [hw]; exact le_min (le_max_right _ _) (by linarith)
+  · rw [hw]; exact min_le_right _ _
+
+example : ∃ fb' bp' s', slRequiredPwr Ex.cQ Ex.sqrtQ 1000 Ex.csO Ex.fbQ Ex.bpQ Ex.sO = .ok (fb', bp', s') ∧
+    s'.k.pwrWhlOut = -2020 ∧ pwrPosMax Ex.csO Ex.sO = 10500 ∧ pwrNegMax Ex.csO = 2100 := by
+  obtain ⟨fb', bp', s', h, _, _, _, _, _, _, _, hw, _⟩ := C03_never_overspeeds_counterexample_run
+  exact ⟨fb', bp', s', h, hw, by decide +kernel, by decide +kernel⟩
+
+/-! ## §7  Closing the loop on the `idx_curr` precondition -/
+
+/-- **The position advances by the trapezoid rule and never moves back while both speeds are
+    non-negative**, so the precondition of `C03_calcSpeeds_spec` holds again for the next step
+    (`C03_step_pre_preserved`).  `speed0` is the un-snapped new speed. -/
+def C03_offset_advance_statement : Prop :=
+  ∀ (c : TrConsts α) (sqrt : α → α) (fm : α) (cs : ConsistState α) (fb fb' : FricBrake α)
+    (bp bp' : BrakingPoints α) (s s' : TrainState α),
+    slRequiredPwr c sqrt fm cs fb bp s = .ok (fb', bp', s') →
+    c.half = 1 / 2 →
+      s'.r.offset = s.r.offset + s.k.dt * ((s.r.speed + speed0 c sqrt fm cs fb s s'.k.speedTarget) / 2) ∧
+      s'.r.offsetBack = s'.r.offset - s.r.length ∧ s'.k.time = s.k.time + s.k.dt ∧
+      (0 ≤ s.k.dt → 0 ≤ s.r.speed → 0 ≤ speed0 c sqrt fm cs fb s s'.k.speedTarget →
+        s.r.offset ≤ s'.r.offset)
+
+theorem C03_offset_advance : C03_offset_advance_statement (α := α) := by
+  intro c sqrt fm cs fb fb' bp bp' s s' h hhalf
+  obtain ⟨limit, target, fC, _, _, _, _, _, _, _, rfl⟩ := slRequiredPwr_inv h
+  have hoff : (mkState c sqrt fm cs fb s target limit
+      (whlOf cs s (fC * speedNew c sqrt fm cs fb s target))).r.offset =
+      s.r.offset + s.k.dt * ((s.r.speed + speed0 c sqrt fm cs fb s target) / 2) := by
+    show s.r.offset + s.k.dt * (s.r.speed + c.half * dv c sqrt fm cs fb s target) = _
+    rw [hhalf]; unfold speed0; ring
+  refine ⟨hoff, rfl, rfl, ?_⟩
+  intro hdt hv h0
+  rw [hoff]
+  change 0 ≤ speed0 c sqrt fm cs fb s target at h0
+  have : 0 ≤ s.k.dt * ((s.r.speed + speed0 c sqrt fm cs fb s target) / 2) :=
+    mul_nonneg hdt (by linarith)
+  linarith
+
+/-- **One accepted step re-establishes everything `calc_speeds` needs for the next one**, as long as
+    the train does not move backwards within the step. -/
+def C03_step_pre_preserved_statement : Prop :=
+  ∀ (c : TrConsts α) (sqrt : α → α) (fm : α) (cs : ConsistState α) (fb fb' : FricBrake α)
+    (bp bp' : BrakingPoints α) (s s' : TrainState α) (pc : BrakingPoint α),
+    slRequiredPwr c sqrt fm cs fb bp s = .ok (fb', bp', s') →
+    BPInvW bp.points → bp.points[bp.idxCurr]? = some pc → pc.off ≤ s.r.offset →
+    c.half = 1 / 2 → 0 ≤ s.k.dt → 0 ≤ s.r.speed →
+    0 ≤ speed0 c sqrt fm cs fb s s'.k.speedTarget →   -- FORCED: see `C03_nonneg_counterexample`
+      BPInvW bp'.points ∧ bp'.points = bp.points ∧ bp'.idxCurr ≤ bp.idxCurr ∧
+      ∃ pc', bp'.points[bp'.idxCurr]? = some pc' ∧ pc'.off ≤ s'.r.offset
+
+theorem C03_step_pre_preserved : C03_step_pre_preserved_statement (α := α) := by
+  intro c sqrt fm cs fb fb' bp bp' s s' pc h hinv hpc hoff hhalf hdt hv h0
+  obtain ⟨_, _, _, hadv⟩ := C03_offset_advance c sqrt fm cs fb fb' bp bp' s s' h hhalf
+  obtain ⟨limit, target, fC, hcs, _⟩ := slRequiredPwr_inv h
+  obtain ⟨hi, hle, hp⟩ := C03_calcSpeeds_pre_preserved bp bp' s.r.offset s'.r.offset s.r.speed _ limit target
+    pc hinv hpc hoff hcs (hadv hdt hv h0)
+  exact ⟨hi, (C03_calcSpeeds_ok bp bp' _ _ _ limit target pc hinv hpc hoff hcs).1, hle, hp⟩
+
+example : ∃ fb' bp' s', slRequiredPwr Ex.cQ Ex.sqrtQ 1000 Ex.csA Ex.fbQ Ex.bpQ Ex.sA = .ok (fb', bp', s') ∧
+    BPInvW Ex.bpQ.points ∧ Ex.bpQ.points[Ex.bpQ.idxCurr]? = some ⟨0, 20, 20⟩ ∧ (0 : ℚ) ≤ Ex.sA.r.offset ∧
+    Ex.cQ.half = 1 / 2 ∧ 0 ≤ Ex.sA.k.dt ∧ 0 ≤ Ex.sA.r.speed ∧
+    0 ≤ speed0 Ex.cQ Ex.sqrtQ 1000 Ex.csA Ex.fbQ Ex.sA 20 ∧ s'.k.speedTarget = 20 ∧
+    s'.r.offset = 2039/2 := by
+  obtain ⟨x, h, hp⟩ := okAnd_exists (r := slRequiredPwr Ex.cQ Ex.sqrtQ 1000 Ex.csA Ex.fbQ Ex.bpQ Ex.sA)
+    (p := fun x : Ex.Out => decide (x.2.2.k.speedTarget = 20 ∧ x.2.2.r.offset = 2039/2)) (by decide +kernel)
+  obtain ⟨fb', bp', s'⟩ := x
+  have := of_decide_eq_true hp
+  exact ⟨fb', bp', s', h, Ex.bpQ_inv.weak, rfl, by decide +kernel, by decide +kernel, by decide +kernel,
+    by decide +kernel, by decide +kernel, this.1, this.2⟩
+
+/-!
+  ## What is NOT proved (and why)
+
+  * The closed-loop statement "for every accepted simulation the speed at every step is within
+    `[0, limit]`" is FALSE in the model: `C03_never_overspeeds_counterexample`,
+    `C03_never_reverses_counterexample`.  What holds per step is `C03_step_le_limit` (brakes not
+    saturated) and `C03_nonneg_partial` (tractive deficit smaller than the speed).
+  * That the braking curve built by `recalc` always leaves enough ramped braking force between curve
+    points (varying resistance, ramping brake, time-step phase), i.e. that hypothesis
+    `lowClip ≤ fTarget` of `C03_step_le_limit` holds along a whole run, is not proved — and is false
+    on real inputs (the assertion is reachable in the Rust code).
+  * Termination of `walk_internal` and `offset ≤ offset_end` at exit (`C03_walk_exit` shows the loop
+    also exits with the train past the end and still moving).
+-/
 
 end Altrios.Proofs.C03
